@@ -78,48 +78,92 @@ func kindName(info *types.Info, e ast.Expr) string {
 func kindDispatches(p *Prog, fn *Func) []kdispatch {
 	info := fn.Pkg.TypesInfo
 	var out []kdispatch
-	ast.Inspect(fn.Decl.Body, func(n ast.Node) bool {
-		sw, ok := n.(*ast.SwitchStmt)
-		if !ok || sw.Tag == nil {
-			return true
+	caseOf := func(pos token.Pos, kinds []string, body []ast.Stmt) kcase {
+		kc := kcase{pos: pos, kinds: kinds, callArgs: map[string]ast.Expr{}}
+		for _, st := range body {
+			ast.Inspect(st, func(m ast.Node) bool {
+				c, ok := m.(*ast.CallExpr)
+				if !ok {
+					return true
+				}
+				if f, ok := calleeFunc(info, c); ok && p.DeclOf(f) != nil && p.DeclOf(f).Pkg == fn.Pkg && len(c.Args) >= 1 {
+					name := f.Name()
+					kc.allCallees = append(kc.allCallees, name)
+					if _, seen := kc.callArgs[name]; !seen {
+						kc.callArgs[name] = c.Args[0]
+					}
+					if kc.callee == "" && name != "noAddrStruct" {
+						kc.callee, kc.arg = name, c.Args[0]
+					}
+				}
+				return true
+			})
 		}
-		subj, ok := isReflectKindCall(info, sw.Tag)
+		return kc
+	}
+	// kindTests splits `E.Kind() == K1 || E.Kind() == K2` into (E, [K1 K2]).
+	var kindTests func(e ast.Expr) (ast.Expr, []string, bool)
+	kindTests = func(e ast.Expr) (ast.Expr, []string, bool) {
+		be, ok := ast.Unparen(e).(*ast.BinaryExpr)
 		if !ok {
-			return true
+			return nil, nil, false
 		}
-		d := kdispatch{fn: fn, subject: subj, pos: sw.Pos()}
-		for _, cl := range sw.Body.List {
-			cc := cl.(*ast.CaseClause)
-			kc := kcase{pos: cc.Pos(), callArgs: map[string]ast.Expr{}}
-			for _, e := range cc.List {
-				if k := kindName(info, e); k != "" {
-					kc.kinds = append(kc.kinds, k)
+		switch be.Op {
+		case token.LOR:
+			s1, k1, ok1 := kindTests(be.X)
+			s2, k2, ok2 := kindTests(be.Y)
+			if ok1 && ok2 && ExprStr(s1) == ExprStr(s2) {
+				return s1, append(k1, k2...), true
+			}
+		case token.EQL:
+			for _, pair := range [][2]ast.Expr{{be.X, be.Y}, {be.Y, be.X}} {
+				if subj, ok := isReflectKindCall(info, pair[0]); ok {
+					if k := kindName(info, pair[1]); k != "" {
+						return subj, []string{k}, true
+					}
 				}
 			}
-			for _, st := range cc.Body {
-				ast.Inspect(st, func(m ast.Node) bool {
-					c, ok := m.(*ast.CallExpr)
-					if !ok {
-						return true
-					}
-					if f, ok := calleeFunc(info, c); ok && p.DeclOf(f) != nil && p.DeclOf(f).Pkg == fn.Pkg && len(c.Args) >= 1 {
-						name := f.Name()
-						kc.allCallees = append(kc.allCallees, name)
-						if _, seen := kc.callArgs[name]; !seen {
-							kc.callArgs[name] = c.Args[0]
-						}
-						if kc.callee == "" && name != "noAddrStruct" {
-							kc.callee, kc.arg = name, c.Args[0]
-						}
-					}
-					return true
-				})
-			}
-			if len(kc.kinds) > 0 {
-				d.cases = append(d.cases, kc)
+		}
+		return nil, nil, false
+	}
+	add := func(subj ast.Expr, pos token.Pos, kc kcase) {
+		// tests of the same subject anywhere in the function form one dispatch
+		for i := range out {
+			if ExprStr(out[i].subject) == ExprStr(subj) {
+				out[i].cases = append(out[i].cases, kc)
+				return
 			}
 		}
-		out = append(out, d)
+		out = append(out, kdispatch{fn: fn, subject: subj, pos: pos, cases: []kcase{kc}})
+	}
+	ast.Inspect(fn.Decl.Body, func(n ast.Node) bool {
+		switch x := n.(type) {
+		case *ast.SwitchStmt:
+			if x.Tag == nil {
+				return true
+			}
+			subj, ok := isReflectKindCall(info, x.Tag)
+			if !ok {
+				return true
+			}
+			for _, cl := range x.Body.List {
+				cc := cl.(*ast.CaseClause)
+				var kinds []string
+				for _, e := range cc.List {
+					if k := kindName(info, e); k != "" {
+						kinds = append(kinds, k)
+					}
+				}
+				if len(kinds) > 0 {
+					add(subj, x.Pos(), caseOf(cc.Pos(), kinds, cc.Body))
+				}
+			}
+		case *ast.IfStmt:
+			// `if E.Kind() == K [|| …] { … }` written as a plain if (chains of them are switches after canonicalisation)
+			if subj, kinds, ok := kindTests(x.Cond); ok {
+				add(subj, x.Pos(), caseOf(x.Pos(), kinds, x.Body.List))
+			}
+		}
 		return true
 	})
 	return out
@@ -449,10 +493,10 @@ func ruleCloneScrub(r *Run, rule string) {
 					ret = &p.Ev[j]
 				}
 			}
-			if ret == nil || len(ret.Rhs) != 1 || ValueKey(info, ret.Rhs[0]) == "nil" {
+			if ret == nil || len(ret.Results()) != 1 || ValueKey(info, ret.Results()[0]) == "nil" {
 				continue
 			}
-			res := ObjOf(info, ret.Rhs[0])
+			res := ObjOf(info, ret.Results()[0])
 			n++
 			tested, scrubbed, optedOut := false, false, false
 			for _, e := range p.Ev {
@@ -1089,16 +1133,19 @@ func ruleFindSecrets(r *Run, rule string) {
 					if !IsCall(e, self) || len(e.Call.Args) < 1 {
 						continue
 					}
+					// where the examined value comes from: p.Request() / p.Response(), directly or through a local
 					src := ""
-					if def := localDef(rfl.Info, reg.Decl.Body, e.Call.Args[0]); def != nil {
-						src = ExprStr(def)
+					if c, ok := ast.Unparen(OriginOnPath(rfl.Info, p, ci, e.Call.Args[0])).(*ast.CallExpr); ok {
+						if f, ok := calleeFunc(rfl.Info, c); ok {
+							src = FuncKey(f)
+						}
 					}
 					v := UseOfResult(rfl, p, ci).Verdict
-					if strings.HasSuffix(src, ".Request()") {
+					if src == "plugins.Plugin.Request" {
 						seen["req"] = true
 						okReq = v == "nil"
 					}
-					if strings.HasSuffix(src, ".Response()") {
+					if src == "plugins.Plugin.Response" {
 						seen["resp"] = true
 						okResp = v == "nil"
 					}
